@@ -52,7 +52,7 @@ def deletion_family(rng, n, L, alpha, pdel=0.08, psub=0.1):
 
 def gen_alignment_input(rng, cls=None):
     """returns dict(kind, recs, cls)"""
-    cls = cls or rng.choice(["width", "width", "names_long", "names_special", "many_rows", "many_lines", "gapfree", "mixedcase", "bulk", "dup_names", "rows_gt_1024"])
+    cls = cls or rng.choice(["width", "width", "names_long", "names_special", "many_rows", "many_lines", "gapfree", "mixedcase", "bulk", "dup_names", "rows_gt_1024", "ragged_right"])
     kind = rng.choice(["dna", "protein"])
     alpha = gen.DNA if kind == "dna" else "DEFHIKLMPQRSVWYACGT"
     if cls == "width":
@@ -87,6 +87,15 @@ def gen_alignment_input(rng, cls=None):
         for _ in range(rng.randint(1, 3)):
             i, j = rng.sample(range(n), 2)
             names[j] = names[i]
+    elif cls == "ragged_right":
+        # a sequence plus C-terminally truncated copies of it: alignments without leading / internal gaps but with trailing gaps
+        n = rng.randint(2, 8)
+        root = gen.rand_seq(rng, rng.choice([20, 60, 61, 120, 200]), alpha)
+        seqs = [root] + [root[:rng.randint(max(2, len(root) // 2), len(root))] for _ in range(n - 1)]
+        if rng.random() < 0.5:
+            seqs = ["".join(rng.choice(alpha) if rng.random() < 0.03 else c for c in s_) for s_ in seqs]
+        rng.shuffle(seqs)
+        names = gen.names(rng, n, "s")
     elif cls == "many_lines":
         # rows x blocks crosses 1024 / 2048 output lines
         n = rng.choice([18, 30, 40])
